@@ -8,4 +8,4 @@ d=$(mktemp -d)
 trap 'rm -rf "$d"' EXIT
 name=zz_overlay_$(basename "$tf")
 printf '{"Replace":{"%s/%s/%s":"%s"}}' "$REPO" "$pkg" "$name" "$(readlink -f "$tf")" > "$d/ov.json"
-cd "$REPO/$pkg" && go test -overlay "$d/ov.json" -vet=off -count=1 -timeout 60s "$@" .
+cd "$REPO/$pkg" && go test -overlay "$d/ov.json" -vet=off -count=1 -timeout ${OVERLAY_TIMEOUT:-60s} "$@" .
